@@ -18,15 +18,19 @@ RULE = ('four case kinds, each a generated layout + an operation history of dept
         'the wrapped read_/write_ methods, attribute assignment, update_target, a change of the fake hardware or of its fault script): '
         'st = struct of 1..3 members, with combined read_/write_ (both, read only, write only) or with per-member '
         'read_/write_ subsets, user methods raising per script (HardwareError on read, RangeError on write) also in the middle of the '
-        'generated struct read/write loops; fe = float/enum pair over 1..5 labels (implicit/explicit indices, explicit/parsed values, '
+        'generated struct read/write loops, a user written write_<struct> whose hardware coerces members per script (member, requested '
+        'value -> stored value, seldom outside the member range; the script changes inside the history; member and struct writes ask '
+        'for coerced values); fe = float/enum pair over 1..5 labels (implicit/explicit indices, explicit/parsed values, '
         'ties, descending tables, with/without read_idx, write_idx absent / plain / following a script that takes the requested index '
         'over, sets ANOTHER index instead (locked out range) or raises; the script changes inside the history); li = base parameter with every non-empty subset of '
-        '{_min,_max,_limits} plus a LimitsType parameter; co = 1..3 controllers registered in random name order on one output, each '
+        '{_min,_max,_limits} plus a LimitsType parameter, in class layouts of 1..3 classes (MRO order): everything in one class, '
+        'parameter (with/without a check_<p> of the programmer) in an ancestor and the limits in a subclass, limits in a plain mixin, '
+        'limits split over / repeated in several classes, intermediate classes with a check_<p>; co = 1..3 controllers registered in random name order on one output, each '
         'plain / writing the output target on switch-off (picontrol style) / raising on switch-off per script. '
         'After every operation the result, the update events (value and error updates) in order and the cached values and error flags '
         'of all parameters are compared with the model.  A case is non-trivial when at least one operation produced an update event; '
         'distinct = distinct (kind, layout, ops).  On top of the seeded random histories: exhaustive histories over 6-9 letter '
-        'alphabets on 12 representative layouts, depth <= 2 in quick, depth <= 4 in thorough.')
+        'alphabets on 16 representative layouts, depth <= 2 in quick, depth <= 4 in thorough (<= 3 for the coercing struct and the class layouts).')
 ASSUMPTIONS = [
     'omit_unchanged_within = 0 (every announceUpdate is delivered); single thread (accessLock/updateLock not exercised)',
     'member / limit / target values are integers inside the generated ranges or one step outside; FloatEnum values are multiples of 0.5 '
@@ -34,6 +38,11 @@ ASSUMPTIONS = [
     'user read_/write_ methods of the fake driver store exactly what they are given; they raise only as scripted (one error kind per '
     'direction: HardwareError on read, RangeError on write); a parameter in error state (last update was an error update) is not '
     'compared by the oracle',
+    'check_<p> methods written by the programmer (limits layouts) raise RangeError for value % 4 == 3 and return None otherwise (a check '
+    'returning True stops the chain by design and is not generated); one written in a class that itself defines a limit parameter '
+    'calls self.checkLimits(value, <p>) as the docstring of checkLimits asks (it replaces the generated check by design); a limit '
+    'parameter never stands deeper in the MRO than its base parameter (frappy refuses to build such a module)',
+    'the coercion script of the struct fake hardware applies to a user written write_<struct> only (it returns what the hardware holds)',
     'the label parser (regex + float()) of FloatEnumParam is python runtime: the parsed number enters the model as data',
     'a scripted write_<idx> of the FloatEnum fake driver answers with an index of the table (never an invalid one) or raises '
     'HardwareError before it stores anything; the oracle is told by the fake driver which index it was asked for and which it set',
@@ -163,7 +172,14 @@ def _run_st(case):
             def write_st(self, value):
                 if flag(self.fwr, 0):
                     raise RangeError('scripted')
-                self.hw = [int(value[MEMBERS[i]]) for i in range(n)]
+                # the hardware rounds / clamps per script (first matching entry [member, requested, stored]) and the
+                # method returns what the hardware holds, as drivers do
+                def stored(i, v):
+                    for j, a, b in self.csc:
+                        if j == i and a == v:
+                            return b
+                    return v
+                self.hw = [stored(i, int(value[MEMBERS[i]])) for i in range(n)]
                 return {MEMBERS[i]: self.hw[i] for i in range(n)}
             ns['write_st'] = write_st
     else:
@@ -186,6 +202,7 @@ def _run_st(case):
     m = env.add(cls, 'm')
     m.hw = [0] * n
     m.frd, m.fwr = [], []
+    m.csc = []
     env.init(m)
     pid = {'_st': 0}
     for i, nm in enumerate(names):
@@ -237,9 +254,12 @@ def _run_st(case):
         elif k == 'fault':
             m.frd, m.fwr = list(op[1]), list(op[2])
             r = {'ok': []}
+        elif k == 'coerce':
+            m.csc = [list(e) for e in op[1]]
+            r = {'ok': []}
         else:
             raise ValueError(op)
-        steps.append({'res': r, 'events': events(), 'snap': snap()})
+        steps.append({'res': r, 'events': events(), 'snap': snap(), 'hw': list(m.hw)})
     return {'init': init, 'steps': steps}
 
 
@@ -340,18 +360,67 @@ def _run_fe(case):
     return {'init': init, 'steps': steps}
 
 
-def _run_li(case):
+def li_classes(L):
+    """the class hierarchy of a limits layout, MRO order (module class first).  Layouts written before class layouts
+    existed name only which limit parameters exist: one class defining everything"""
+    if L.get('classes'):
+        return L['classes']
+    return [{'acc': True, 'param': True, 'user': 0, 'min': bool(L.get('min')), 'max': bool(L.get('max')),
+             'lim': bool(L.get('lim'))}]
+
+
+def li_has(L, key):
+    return any(c[key] for c in li_classes(L))
+
+
+def _li_build(L):
+    """create the real classes: the list is the MRO, most derived first; a class with acc derives from the next class
+    with acc (or from Module) and has the plain mixins standing between them as leading bases:
+    [K0, m1, m2, K1, m3]  ->  class K1(m3, Module); class K0(m1, m2, K1)"""
     from frappy.core import FloatRange, IntRange, Module, Parameter
     from frappy.datatypes import LimitsType
+    from frappy.errors import RangeError
     from frappy.params import Limit
-    L = case['layout']
     mk = (lambda: IntRange(L['lo'], L['hi'])) if L['base'] == 'int' else (lambda: FloatRange(L['lo'], L['hi']))
-    ns = {'a': Parameter('base', mk(), readonly=False, default=0),
-          'rng': Parameter('range', LimitsType(mk()), readonly=False, default=(0, 0))}
-    for key, nm in (('min', 'a_min'), ('max', 'a_max'), ('lim', 'a_limits')):
-        if L[key]:
-            ns[nm] = Limit()
-    cls = type('LiMod', (Module,), ns)
+    classes = li_classes(L)
+    if not classes[0]['acc']:
+        raise ValueError('the module class must derive from Module')
+    prev, pending, built = Module, [], []
+    for j in range(len(classes) - 1, -1, -1):
+        c = classes[j]
+        ns = {}
+        if c['param']:
+            ns['a'] = Parameter('base', mk(), readonly=False, default=0)
+            ns['rng'] = Parameter('range', LimitsType(mk()), readonly=False, default=(0, 0))
+        for key, nm in (('min', 'a_min'), ('max', 'a_max'), ('lim', 'a_limits')):
+            if c[key]:
+                ns[nm] = Limit()
+        if c['user']:
+            def check_a(self, value, kind=c['user']):
+                # a plausibility test of the programmer; kind 2: he calls the limit check himself
+                if value % 4 == 3:
+                    raise RangeError('implausible value')
+                if kind >= 2:
+                    self.checkLimits(value, 'a')
+            ns['check_a'] = check_a
+        if c['acc']:
+            k = type(f'Li{j}', tuple(pending) + (prev,), ns)
+            prev, pending = k, []
+        else:
+            k = type(f'LiMix{j}', (), ns)
+            pending.insert(0, k)
+        built.insert(0, k)
+    return prev, built
+
+
+def _run_li(case):
+    L = case['layout']
+    cls, built = _li_build(L)
+    # the model lists the classes in MRO order: check what python made of the bases
+    mro = [k for k in cls.__mro__ if k in built]
+    if mro != built:
+        raise ValueError(f'MRO {mro} differs from the layout {built}')
+    L = {'lo': L['lo'], 'hi': L['hi'], 'min': li_has(L, 'min'), 'max': li_has(L, 'max'), 'lim': li_has(L, 'lim')}
     env = _Env()
     m = env.add(cls, 'm')
     env.init(m)
@@ -531,7 +600,9 @@ def enc_op(kind, op):
                 'writeS': lambda: f'(St.WriteS {zl(op[1])})', 'writeM': lambda: f'(St.WriteM {gal.nat(op[1])} {gal.z(op[2])})',
                 'setS': lambda: f'(St.SetS {zl(op[1])})', 'setM': lambda: f'(St.SetM {gal.nat(op[1])} {gal.z(op[2])})',
                 'hw': lambda: f'(St.Hw {zl(op[1])})',
-                'fault': lambda: f'(St.Fault {gal.lst(op[1], gal.boolean)} {gal.lst(op[2], gal.boolean)})'}[k]()
+                'fault': lambda: f'(St.Fault {gal.lst(op[1], gal.boolean)} {gal.lst(op[2], gal.boolean)})',
+                'coerce': lambda: '(St.Coerce %s)' % gal.lst(
+                    op[1], lambda e: f'({gal.nat(e[0])}, {gal.z(e[1])}, {gal.z(e[2])})')}[k]()
     if kind == 'fe':
         return {'writeF': lambda: f'(Fe.WriteF {gal.z(op[1])})', 'writeI': lambda: f'(Fe.WriteI {gal.z(op[1])})',
                 'readF': lambda: f'(Fe.ReadF {by(op[1])})', 'readI': lambda: 'Fe.ReadI',
@@ -565,8 +636,10 @@ def enc_layout(kind, L):
         return ('{| Fe.f_labels := [%s]; Fe.f_ri := %s; Fe.f_wi := %s |}'
                 % ('; '.join(labs), gal.boolean(L['ri']), gal.nat(L['wi'])))
     if kind == 'li':
-        return ('{| Li.l_lo := %s; Li.l_hi := %s; Li.l_min := %s; Li.l_max := %s; Li.l_lim := %s |}'
-                % (gal.z(L['lo']), gal.z(L['hi']), gal.boolean(L['min']), gal.boolean(L['max']), gal.boolean(L['lim'])))
+        cls = ['{| Li.c_acc := %s; Li.c_param := %s; Li.c_user := %s; Li.c_min := %s; Li.c_max := %s; Li.c_lim := %s |}'
+               % (gal.boolean(c['acc']), gal.boolean(c['param']), gal.nat(c['user']), gal.boolean(c['min']),
+                  gal.boolean(c['max']), gal.boolean(c['lim'])) for c in li_classes(L)]
+        return ('{| Li.l_lo := %s; Li.l_hi := %s; Li.l_classes := [%s] |}' % (gal.z(L['lo']), gal.z(L['hi']), '; '.join(cls)))
     return gal.lst(L.get('kinds') or [0] * len(L['names']), gal.nat)
 
 
@@ -706,18 +779,24 @@ def oracle(case, obs):
                     fail('floatenum-value', f'{label}: read returned {steps[k]["res"]["ok"]}', k, view='read')
 
     elif kind == 'li':
+        # whatever the class layout (which class defines the parameter, which ones the limits, where the programmer put
+        # check functions of his own): the limits in force are the values the limit parameters had before the write
         for k, (op, s) in enumerate(zip(ops, steps)):
             before = obs['init'] if k == 0 else steps[k - 1]['snap']
             if op[0] == 'writeA' and 'ok' in s['res']:
                 v = op[1]
                 out = []
+                if li_has(L, 'min') and li_has(L, 'max') and before[1][0] > before[2][0]:
+                    out.append(f'inverted pair a_min={before[1][0]} > a_max={before[2][0]}')
+                if li_has(L, 'lim') and before[3][0] > before[3][1]:
+                    out.append(f'inverted pair a_limits={before[3]}')
                 if not L['lo'] <= v <= L['hi']:
                     out.append('datatype range')
-                if L['min'] and v < before[1][0]:
+                if li_has(L, 'min') and v < before[1][0]:
                     out.append(f'a_min={before[1][0]}')
-                if L['max'] and v > before[2][0]:
+                if li_has(L, 'max') and v > before[2][0]:
                     out.append(f'a_max={before[2][0]}')
-                if L['lim'] and not before[3][0] <= v <= before[3][1]:
+                if li_has(L, 'lim') and not before[3][0] <= v <= before[3][1]:
                     out.append(f'a_limits={before[3]}')
                 if out:
                     fail('limits-respected', f'op {k}: write a={v} accepted although outside ' + ', '.join(out), k,
@@ -892,9 +971,36 @@ def gen_st_layout(rng):
     return {'n': n, 'prefix': rng.choice(['', 'p_']), 'rw': rw, 'sr': sr, 'sw': sw, 'mr': mr, 'mw': mw}
 
 
-def gen_st_op(rng, L, allow_unsafe=True):
+def gen_st_op(rng, L, allow_unsafe=True, ctx=None):
+    """ctx (one dict per history) remembers the coercion script in force, so that writes ask for values the hardware coerces"""
     n = L['n']
-    k = rng.choice(['readS', 'readS', 'readM', 'writeS', 'writeS', 'writeM', 'writeM', 'setS', 'setM', 'hw', 'fault', 'fault'])
+    ctx = {} if ctx is None else ctx
+    coercing = L['rw'] and L['sw']
+    k = rng.choice(['readS', 'readS', 'readM', 'writeS', 'writeS', 'writeM', 'writeM', 'setS', 'setM', 'hw', 'fault', 'fault']
+                   + (['coerce', 'coerce', 'writeM', 'writeM', 'readM'] if coercing else []))
+    if ctx.get('csc') and rng.random() < 0.3:
+        k = 'writeM'
+    if k == 'coerce':
+        # the hardware rounds / clamps: requested value a of member i is stored as b (seldom outside the member range)
+        if rng.random() < 0.15:
+            ctx['csc'] = []
+            return ['coerce', []]
+        scr = []
+        for _ in range(rng.randint(1, 4)):
+            i = rng.randrange(n)
+            a = rng.choice([rng.randint(-9, 9), rng.randint(-9, 9), rng.randint(ST_LO, ST_HI), ST_HI, ST_LO])
+            b = rng.choice([a + rng.choice([-2, -1, 1, 2]), a - a % 5, rng.randint(-9, 9), max(-50, min(50, a)),
+                            ST_HI + 1 if rng.random() < 0.3 else a + 1])
+            scr.append([i, a, b])
+        ctx['csc'] = scr
+        return ['coerce', scr]
+
+    def wval(i):
+        keys = [a for j, a, b in ctx.get('csc', []) if j == i]
+        if keys and rng.random() < 0.6:
+            return rng.choice(keys)
+        return _val(rng)
+
     if k == 'fault':
         r = rng.random()
         rd, wr = [False] * n, [False] * n
@@ -911,9 +1017,12 @@ def gen_st_op(rng, L, allow_unsafe=True):
     if k == 'readM':
         return ['readM', rng.randrange(n), _by(rng)]
     if k == 'writeS':
-        return ['writeS', [_val(rng) for _ in range(n)], _by(rng)]
+        return ['writeS', [wval(i) for i in range(n)], _by(rng)]
     if k == 'writeM':
-        return ['writeM', rng.randrange(n), _val(rng), _by(rng)]
+        i = rng.randrange(n)
+        if ctx.get('csc') and rng.random() < 0.6:
+            i = rng.choice(ctx['csc'])[0]
+        return ['writeM', i, wval(i), _by(rng)]
     inr = lambda: rng.randint(-20, 20)
     if k == 'setS':
         if not L['rw'] and (not allow_unsafe or rng.random() < 0.7):
@@ -999,24 +1108,72 @@ def gen_fe_op(rng, L, allow_unsafe=True):
     return ['hwI', rng.choice(keys)]
 
 
+def _li_cls(acc=True, param=False, user=0, mn=False, mx=False, lim=False):
+    return {'acc': acc, 'param': param, 'user': user, 'min': mn, 'max': mx, 'lim': lim}
+
+
 def gen_li_layout(rng):
+    """class layouts: everything in one class; parameter (with / without a check_a of the programmer) in an ancestor and the
+    limits in a subclass; limits in a plain mixin; limits split over several classes; random hierarchies of 2..3 classes.
+    A limit parameter never stands deeper in the MRO than the parameter (frappy refuses the module then), and a check_a
+    written in a class that defines a limit parameter calls checkLimits itself (it replaces the generated check by design)"""
     lo, hi = rng.choice([(-10, 10), (-5, 5), (0, 8), (-8, 0), (-3, 12)])
     while True:
         mn, mx, lim = rng.random() < 0.5, rng.random() < 0.5, rng.random() < 0.4
         if mn or mx or lim:
             break
-    return {'base': rng.choice(['int', 'float']), 'lo': lo, 'hi': hi, 'min': mn, 'max': mx, 'lim': lim}
+    shape = rng.choice(['same', 'same', 'sub', 'sub', 'sub', 'mixin', 'mixin', 'split', 'random', 'random'])
+    if shape == 'same':
+        classes = [_li_cls(True, True, rng.choice([0, 0, 0, 2]), mn, mx, lim)]
+    elif shape == 'sub':
+        # the layout of seeded change C18-5: ancestor with the parameter and (mostly) its own check, subclass adds the limits
+        classes = [_li_cls(True, False, rng.choice([0, 0, 0, 2]), mn, mx, lim),
+                   _li_cls(True, True, rng.choice([1, 1, 1, 2, 0]))]
+        if rng.random() < 0.3:
+            classes.insert(1, _li_cls(rng.random() < 0.6, False, rng.choice([0, 1])))
+    elif shape == 'mixin':
+        # test_limit_inheritance: class Mod(Mixin, Base)
+        classes = [_li_cls(True, False, rng.choice([0, 1, 1])), _li_cls(False, False, rng.choice([0, 0, 0, 2]), mn, mx, lim),
+                   _li_cls(True, True, rng.choice([0, 1, 1]))]
+        if rng.random() < 0.3:
+            classes = classes[1:]
+            classes.insert(0, _li_cls(True, False, 0))
+    elif shape == 'split':
+        if not (mn and mx) and not lim:
+            mn = mx = True
+        top = _li_cls(True, False, rng.choice([0, 0, 2]), mn and not lim, False, lim)
+        classes = [top, _li_cls(rng.random() < 0.7, False, rng.choice([0, 0, 2]), mn and lim, mx, False),
+                   _li_cls(True, True, rng.choice([0, 1, 1]))]
+        if rng.random() < 0.4:
+            classes[1]['param'], classes[1]['acc'] = True, True
+            classes.pop()
+    else:
+        n = rng.randint(2, 3)
+        ppos = rng.randrange(n)
+        classes = []
+        for j in range(n):
+            c = _li_cls(j == 0 or rng.random() < 0.6, j == ppos, 0)
+            if j <= ppos:
+                c['min'], c['max'], c['lim'] = mn and rng.random() < 0.5, mx and rng.random() < 0.5, lim and rng.random() < 0.5
+            has = c['min'] or c['max'] or c['lim']
+            c['user'] = rng.choice([0, 0, 2] if has else [0, 0, 1, 1, 2])
+            classes.append(c)
+        if not any(c['min'] or c['max'] or c['lim'] for c in classes):
+            classes[0].update(min=mn, max=mx, lim=lim)
+            if classes[0]['user'] == 1:
+                classes[0]['user'] = 2
+    return {'base': rng.choice(['int', 'float']), 'lo': lo, 'hi': hi, 'classes': classes}
 
 
 def gen_li_op(rng, L):
     lo, hi = L['lo'], L['hi']
     v = lambda: rng.choice([rng.randint(lo - 1, hi + 1), rng.randint(lo, hi), lo, hi, 0])
     kinds = ['writeA', 'writeA', 'writeA', 'writeRng']
-    if L['min']:
+    if li_has(L, 'min'):
         kinds += ['writeMin', 'writeMin', 'setMin']
-    if L['max']:
+    if li_has(L, 'max'):
         kinds += ['writeMax', 'writeMax', 'setMax']
-    if L['lim']:
+    if li_has(L, 'lim'):
         kinds += ['writeLim', 'writeLim', 'setLim']
     k = rng.choice(kinds)
     if k in ('writeA', 'writeMin', 'writeMax'):
@@ -1053,10 +1210,17 @@ GEN = {'st': (gen_st_layout, gen_st_op), 'fe': (gen_fe_layout, gen_fe_op), 'li':
        'co': (gen_co_layout, gen_co_op)}
 
 
+def gen_ops(rng, kind, L, count):
+    go = GEN[kind][1]
+    if kind == 'st':
+        ctx = {}
+        return [go(rng, L, ctx=ctx) for _ in range(count)]
+    return [go(rng, L) for _ in range(count)]
+
+
 def rand_case(rng, kind):
-    gl, go = GEN[kind]
-    L = gl(rng)
-    return {'kind': kind, 'layout': L, 'ops': [go(rng, L) for _ in range(rng.randint(1, 8))]}
+    L = GEN[kind][0](rng)
+    return {'kind': kind, 'layout': L, 'ops': gen_ops(rng, kind, L, rng.randint(1, 8))}
 
 
 def exhaustive_cases(depth):
@@ -1085,6 +1249,14 @@ def exhaustive_cases(depth):
         for d in range(1, depth + 1):
             for ops in itertools.product(alpha, repeat=d):
                 yield {'kind': 'st', 'layout': L, 'ops': [list(o) for o in ops]}
+    # struct with combined methods whose hardware coerces what write_<struct> is given (both methods / write only)
+    for L in ({'n': 2, 'prefix': 'p_', 'rw': True, 'sr': True, 'sw': True, 'mr': [False] * 2, 'mw': [False] * 2},
+              {'n': 2, 'prefix': '', 'rw': True, 'sr': False, 'sw': True, 'mr': [False] * 2, 'mw': [False] * 2}):
+        alpha = [['writeM', 0, 7, 'c'], ['writeM', 1, 3, 'd'], ['writeS', [7, 2], 'c'], ['readM', 0, 'c'], ['readS', 'c'],
+                 ['coerce', [[0, 7, 5], [1, 3, 4]]], ['coerce', [[0, 7, 101]]], ['coerce', []], ['hw', [8, 9]]]
+        for d in range(1, min(depth, 3) + 1):
+            for ops in itertools.product(alpha, repeat=d):
+                yield {'kind': 'st', 'layout': L, 'ops': [list(o) for o in ops]}
     # control: 3 plain controllers; then a safe-value writer, a possibly failing one and a plain one
     L = {'names': ['zeta', 'alpha', 'mid'], 'kinds': [0, 0, 0]}
     alpha = [['writeT', 0, 1, 'c'], ['writeT', 1, 2, 'd'], ['writeT', 2, 3, 'c'], ['writeO', 4, 'c'], ['updT', 0, 5], ['updT', 2, 6]]
@@ -1100,13 +1272,27 @@ def exhaustive_cases(depth):
     # limits: min+max and limits
     for L in ({'base': 'float', 'lo': -10, 'hi': 10, 'min': True, 'max': True, 'lim': False},
               {'base': 'int', 'lo': -10, 'hi': 10, 'min': False, 'max': False, 'lim': True}):
-        if L['lim']:
+        if li_has(L, 'lim'):
             alpha = [['writeA', 3, 'c'], ['writeA', -4, 'c'], ['writeA', 11, 'c'], ['writeLim', -3, 3, 'c'], ['writeLim', 4, -4, 'c'],
                      ['setLim', 0, 12], ['writeRng', 2, 1, 'c'], ['writeRng', 1, 2, 'c']]
         else:
             alpha = [['writeA', 3, 'c'], ['writeA', -4, 'c'], ['writeA', 11, 'c'], ['writeMin', 4, 'c'], ['writeMax', 2, 'c'],
                      ['writeMin', -5, 'd'], ['setMax', 12], ['writeRng', 2, 1, 'd']]
         for d in range(1, depth + 1):
+            for ops in itertools.product(alpha, repeat=d):
+                yield {'kind': 'li', 'layout': L, 'ops': [list(o) for o in ops]}
+    # limits added in a subclass of a class that has the parameter and its own check_a; limits in a plain mixin
+    S = _li_cls
+    for L in ({'base': 'float', 'lo': -10, 'hi': 10, 'classes': [S(True, False, 0, True, True, False), S(True, True, 1)]},
+              {'base': 'int', 'lo': -10, 'hi': 10,
+               'classes': [S(True, False, 1), S(False, False, 0, False, True, True), S(True, True, 1)]}):
+        if li_has(L, 'lim'):
+            alpha = [['writeA', 2, 'c'], ['writeA', -4, 'c'], ['writeA', 3, 'c'], ['writeLim', -3, 3, 'c'], ['writeLim', 4, -4, 'c'],
+                     ['writeMax', 1, 'c'], ['setLim', 0, 12], ['writeA', 9, 'd']]
+        else:
+            alpha = [['writeA', 2, 'c'], ['writeA', -4, 'c'], ['writeA', 3, 'c'], ['writeMin', 4, 'c'], ['writeMax', 1, 'c'],
+                     ['writeMin', -5, 'd'], ['setMax', 12], ['writeA', 9, 'd']]
+        for d in range(1, min(depth, 3) + 1):
             for ops in itertools.product(alpha, repeat=d):
                 yield {'kind': 'li', 'layout': L, 'ops': [list(o) for o in ops]}
     # float/enum: a descending table with a tie
@@ -1156,9 +1342,8 @@ def search_cases(seed, mismatching):
             out.append(dict(c, ops=ops[:i]))
         for i in range(len(ops)):
             out.append(dict(c, ops=ops[:i] + ops[i + 1:]))
-        go = GEN[c['kind']][1]
         for _ in range(40):
-            out.append(dict(c, ops=[go(rng, c['layout']) for _ in range(rng.randint(1, 8))]))
+            out.append(dict(c, ops=gen_ops(rng, c['kind'], c['layout'], rng.randint(1, 8))))
     for kind in ('st', 'fe', 'li', 'co'):
         out.extend(rand_case(rng, kind) for _ in range(4000))
     out.extend(exhaustive_cases(3))
